@@ -36,6 +36,7 @@ type World struct {
 	specFiles []string
 	macros    map[string]*Macro
 	recvInv   map[string][]*Clause
+	commonPost map[string][]*Clause
 	replaySolver string
 }
 
@@ -516,4 +517,27 @@ func (w *World) recvInvFor(fn *ssa.Function) ([]*Clause, string) {
 		return nil, ""
 	}
 	return cs, fn.Params[0].Name()
+}
+
+// commonPostFor: postconditions shared by all methods of the receiver type.
+func (w *World) commonPostFor(fn *ssa.Function) []*Clause {
+	if len(fn.Params) == 0 || fn.Signature.Recv() == nil || fn.Parent() != nil {
+		return nil
+	}
+	rt := fn.Signature.Recv().Type()
+	if pt, ok := rt.(*types.Pointer); ok {
+		rt = pt.Elem()
+	}
+	n, ok := rt.(*types.Named)
+	if !ok {
+		return nil
+	}
+	cs := w.commonPost[typeKey(n)]
+	if len(cs) == 0 {
+		return nil
+	}
+	if fc := w.contracts[funcKey(fn)]; fc != nil && fc.Flags["nocommon"] {
+		return nil
+	}
+	return cs
 }
